@@ -234,7 +234,7 @@ def _plan(draws, spec, idx, scenario):
                     op.vars[src[1]].json = op.vars[src[1]].py = None
         _resolve(op, spec)
     plan.op = op
-    plan.text = render(op, rs.below(4, "layout"))
+    plan.text = render(op, rs.below(4, "layout"), bool(rs.below(2, "frags_first")))
     plan.n = rs.below(9, "n_events")
     plan.delays = [DELAYS[rs.below(len(DELAYS), "delay")]
                    for _ in range(plan.n)]
